@@ -106,6 +106,17 @@ namespace AIToolbox::MDP {
              */
             Policy(const PolicyMatrix & p);
 
+            /**
+             * @brief Copy constructor.
+             *
+             * The PolicyWrapper base holds a reference to the policy
+             * matrix, which must refer to the matrix of the new object
+             * and not to the one of the object being copied.
+             *
+             * @param p The policy to copy.
+             */
+            Policy(const Policy & p);
+
         private:
             PolicyMatrix policy_;
 
